@@ -405,8 +405,11 @@ class Header(Field):
 
         else:
             # old-format length
-            ##TODO: what if _llen needs to be (re)computed?
-            return self._llen
+            # widen the length-of-length if the length no longer fits in the one that was parsed
+            llen = self._llen
+            while 0 < llen < 4 and self.length >= (1 << (8 * llen)):
+                llen *= 2
+            return llen
 
     @llen.register(int)
     def llen_int(self, val):
